@@ -619,3 +619,4 @@ def run(chk):
     # provider is a Satisfier (the blanket impl) those are the held signatures' real lengths (rule shared with C17)
     from . import c17
     chk.guard("R09.9", "provider-sizes", c17.check_satisfier_as_provider, chk, F, "R09.9")
+    chk.guard("R09.10", "tr-weight", weights.check_tr_weight, chk, F)
